@@ -242,6 +242,6 @@ def header_cases(ctx: Ctx):
 
 PARTS: list[Part] = [
     enum_part("headers", header_cases, check_case, {"quick": 4, "thorough": 4}),
-    hyp_part("cases", strat_cases, check_case, {"quick": 250, "thorough": 2500},
+    hyp_part("cases", strat_cases, check_case, {"quick": 250, "thorough": 4500},
              {"quick": 8, "thorough": 16}),
 ]
